@@ -71,6 +71,22 @@ struct task_exc
     int64_t pos;
 };
 
+// the same, as a member of the std::exception hierarchy (thrown at odd operator positions): code that catches a task's
+// exception by `const std::exception&` and stores a copy hands the caller another object (a sliced std::exception)
+struct task_std_exc final : std::exception
+{
+    task_std_exc(const int call_, const int64_t pos_)
+        : call(call_)
+        , pos(pos_)
+    {
+    }
+
+    const char* what() const noexcept override { return "task_std_exc"; }
+
+    int     call;
+    int64_t pos;
+};
+
 struct rec_t
 {
     int32_t tid;
@@ -429,7 +445,7 @@ void do_op(ctx_t* c, call_t& m, int64_t begin, int64_t end, size_t tnum)
     m.fin.fetch_add(1);
     if (throws)
     {
-        auto ep = std::make_exception_ptr(task_exc{m.id, pos});
+        auto ep = (pos % 2 == 1) ? std::make_exception_ptr(task_std_exc{m.id, pos}) : std::make_exception_ptr(task_exc{m.id, pos});
         m.eptrs[static_cast<size_t>(it - m.throws.begin())] = ep;
         std::rethrow_exception(ep);
     }
